@@ -10,7 +10,9 @@ COMMON_NOTE = ("Trusted: Coq 8.16.1 kernel + VM (vm_compute), no axioms (Print A
 GEN_NOTE = (COMMON_NOTE + "The generator and the generated code are MODELLED (deep embedding: Model/Spec.v raw XML AST, Model/Elab.v elaboration mirroring the generator's rules, "
    "Model/Ser.v / Model/Deser.v statement-level reference semantics over the writer/reader models) and tied to /repo by running the REAL generator on every "
    "specification tree (hand-written mini-eo corpus + grammar-based random trees with a printed feature matrix) and executing the generated classes; identifier hygiene, "
-   "docstrings, HTML unescaping are not modelled. ")
+   "docstrings, HTML unescaping are not modelled. For C01 C02 C03 C15 C16 C19 the emitted code is additionally tied STRUCTURALLY: tools/gen2instr.py (fail-closed, source text only) recovers the "
+   "instruction lists of every generated serialize / deserialize / __init__ and Model/Recover.v compares them with the elaboration of the same tree inside Coq, so the theorems about the "
+   "elaborated lists apply to the code as emitted for all objects and bytes; trusted there: the recogniser's copy of the templates and Python's ast. ")
 
 CHECKS = {
  'C07': dict(
